@@ -61,10 +61,20 @@ func (e *specEnv) resolveType(src string) types.Type {
 		e.fail("cannot resolve type %q: package %s not loaded", src, e.pkgPath)
 	}
 	tv, err := types.Eval(e.x.p.Fset, pk, token.NoPos, src)
-	if err != nil || !tv.IsType() {
-		e.fail("cannot resolve type %q: %v", src, err)
+	if err == nil && tv.IsType() {
+		return tv.Type
 	}
-	return tv.Type
+	// imported names are file-scoped: retry in the scope of each file of the package
+	if lp := e.x.p.Pkgs[e.pkgPath]; lp != nil {
+		for _, f := range lp.Syntax {
+			tv2, err2 := types.Eval(e.x.p.Fset, pk, f.Name.End(), src)
+			if err2 == nil && tv2.IsType() {
+				return tv2.Type
+			}
+		}
+	}
+	e.fail("cannot resolve type %q: %v", src, err)
+	return nil
 }
 
 func (e *specEnv) evalBool(ex SExpr) *Term {
@@ -363,6 +373,14 @@ func (e *specEnv) call(ex SCall) Value {
 	switch fn.Name {
 	case "old":
 		return e.oldEnv().ev(ex.Args[0])
+	case "pre":
+		// pre(e): value of e in the state just before the innermost enclosing loop
+		if e.lp == nil || e.lp.pre == nil {
+			e.fail("pre() is only available in loop invariants")
+		}
+		n := e.sub()
+		n.s = &State{vars: e.lp.pre.vars, mem: e.lp.pre.mem, allocTop: e.lp.pre.allocTop, ghost: e.lp.pre.ghost, typed: e.s.typed, sink: sinkOf(e.s)}
+		return n.ev(ex.Args[0])
 	case "len", "card":
 		v := arg(0)
 		switch kindOf(v.T) {
@@ -432,6 +450,21 @@ func (e *specEnv) call(ex SCall) Value {
 			e.fail("typeid needs a string literal")
 		}
 		return Value{T: it, Term: x.tid(e.resolveType(s.Val))}
+	case "ctxValue":
+		// ctxValue(ctx, "KeyType"): ctx.Value(KeyType{})
+		cv := arg(0)
+		ks, ok := ex.Args[1].(SStr)
+		if !ok {
+			e.fail("ctxValue(ctx, \"KeyType\") needs a type name")
+		}
+		kt := e.resolveType(ks.Val)
+		key := x.box(e.s, x.h.zeroValue(kt))
+		m := x.h.region(e.s, "CTX", 2, SInt)
+		return Value{T: types.NewInterfaceType(nil, nil), Term: c.Read(m, cv.Term, key)}
+	case "plainError":
+		// dynamic type is errors.New's (no Unwrap, no Is)
+		v := arg(0)
+		return Value{T: boolT, Term: c.Eq(x.dyn(v.Term), c.DistinctConst("tid", tidErrorString))}
 	case "is":
 		v := arg(0)
 		s, ok := ex.Args[1].(SStr)
